@@ -34,6 +34,267 @@ Proof.
   destruct (IH (o_call lim o c)) as (A & B & D & E & F). rewrite A, B, D, E, F. apply ocall_basic.
 Qed.
 
+Section Hrel.
+  Context {T : Type}.
+  Variable tp : transport T response cmsg.
+  Notation st := (@sstate T).
+
+  (* handler states only move from "queued for a permit" to "has a permit" during a poll *)
+  Definition hrel (s s' : st) : Prop :=
+    forall j hr', nth_error (s_handlers s') j = Some hr' ->
+      exists hr, nth_error (s_handlers s) j = Some hr
+        /\ (h_st hr' = h_st hr \/ exists b, h_st hr = HWait b /\ h_st hr' = HPermit b).
+
+  Lemma hrel_eq : forall (s s' : st), s_handlers s' = s_handlers s -> hrel s s'.
+  Proof. intros s s' H j hr' Hj. rewrite H in Hj. exists hr'. auto. Qed.
+  Lemma hrel_trans : forall a b c, hrel a b -> hrel b c -> hrel a c.
+  Proof.
+    intros a b c H1 H2 j hr' Hj. destruct (H2 j hr' Hj) as (hr1 & Hj1 & E1).
+    destruct (H1 j hr1 Hj1) as (hr0 & Hj0 & E0). exists hr0. split; [exact Hj0|].
+    destruct E1 as [E1|(b1 & E1 & E1')]; destruct E0 as [E0|(b0 & E0 & E0')].
+    - left. congruence.
+    - right. exists b0. split; congruence.
+    - right. exists b1. split; congruence.
+    - exfalso. congruence.
+  Qed.
+
+  Lemma handlers_base : forall f (s : st) r s', base_poll_next tp f s = (r, s') -> s_handlers s' = s_handlers s.
+  Proof.
+    induction f as [|f IH]; intros s r s' H; cbn [base_poll_next] in H; [injection H as _ <-; reflexivity|].
+    set (cs := match s_cancels s with
+               | id :: r0 => (RSReady, snd (remove_request id (set_cancels s r0)))
+               | [] => (RSClosed, s) end) in H.
+    assert (Hc : s_handlers (snd cs) = s_handlers s).
+    { subst cs. destruct (s_cancels s); [reflexivity|]. cbn [snd].
+      destruct (remove_request_shape n (set_cancels s l)) as [(_ & -> & _)|(_ & _ & _ & _ & B3 & _)];
+        [reflexivity|exact B3]. }
+    destruct cs as [cst s1]. cbn [snd] in Hc.
+    destruct (poll_expired s1) as [est s2] eqn:EE.
+    destruct (poll_expired_shape _ _ _ EE) as (A1 & _).
+    assert (Hfin : forall rst sx r s', s_handlers sx = s_handlers s ->
+               match combine (combine cst est) rst with
+               | RSReady => base_poll_next tp f sx
+               | RSClosed => (PEnd, sx)
+               | RSPending => (PPending, sx)
+               end = (r, s') -> s_handlers s' = s_handlers s).
+    { intros rst sx r0 s0 Hx HH. destruct (combine (combine cst est) rst).
+      - rewrite (IH _ _ _ HH). exact Hx.
+      - injection HH as _ <-. exact Hx.
+      - injection HH as _ <-. exact Hx. }
+    destruct (s_fused s2).
+    - apply (Hfin RSClosed s2 r s'); [congruence|exact H].
+    - destruct (do_next tp s2) as [rr s3] eqn:EN. destruct (do_next_core tp _ _ _ EN) as ((C1 & _) & _).
+      destruct rr as [m| | |].
+      + destruct m as [id dl tr body|id tr].
+        * destruct (start_request id dl s3) as [[h s4]|] eqn:ES.
+          -- injection H as _ <-. destruct (start_request_shape _ _ _ _ _ ES) as (_ & _ & _ & _ & _ & Hh & _). congruence.
+          -- rewrite (IH _ _ _ H). congruence.
+        * apply (Hfin RSReady (cancel_request id s3) r s'); [|exact H].
+          destruct (cancel_request_shape id s3) as [(-> & _)|(e & _ & _ & _ & _ & B4 & _)]; congruence.
+      + injection H as _ <-. congruence.
+      + apply (Hfin RSClosed (set_fused s3 true) r s'); [sproj; congruence|exact H].
+      + apply (Hfin RSPending s3 r s'); [congruence|exact H].
+  Qed.
+
+  Lemma handlers_start_send : forall m (s : st) e s', base_start_send tp m s = (e, s') -> s_handlers s' = s_handlers s.
+  Proof.
+    intros m s e s' H.
+    destruct (base_start_send_shape tp _ _ _ _ H) as [(_ & _ & ->)|(_ & _ & _ & _ & _ & _ & B3 & _)]; auto.
+  Qed.
+
+  Lemma handlers_maxreq : forall f limit (s : st) r s', maxreq_poll_next tp f limit s = (r, s') -> s_handlers s' = s_handlers s.
+  Proof.
+    induction f as [|f IH]; intros limit s r s' H; cbn [maxreq_poll_next] in H; [injection H as _ <-; reflexivity|].
+    destruct (limit <=? length (s_inflight s)).
+    - destruct (do_ready tp s) as [x s1] eqn:ER. destruct (do_ready_core tp _ _ _ ER) as ((C1 & _) & _).
+      destruct x; try (injection H as _ <-; exact C1).
+      destruct (base_poll_next tp (S f) s1) as [y s2] eqn:EB. pose proof (handlers_base _ _ _ _ EB) as H2.
+      destruct y; try (injection H as _ <-; congruence).
+      destruct (base_start_send tp (mkresp (q_id x) BThrottle) s2) as [e s3] eqn:ESS.
+      pose proof (handlers_start_send _ _ _ _ ESS) as H3.
+      destruct e; [injection H as _ <-; congruence|]. rewrite (IH _ _ _ _ H). congruence.
+    - exact (handlers_base _ _ _ _ H).
+  Qed.
+
+  Lemma dropped_base : forall f (s : st) r s', base_poll_next tp f s = (r, s') -> s_dropped s' = s_dropped s.
+  Proof.
+    induction f as [|f IH]; intros s r s' H; cbn [base_poll_next] in H; [injection H as _ <-; reflexivity|].
+    set (cs := match s_cancels s with
+               | id :: r0 => (RSReady, snd (remove_request id (set_cancels s r0)))
+               | [] => (RSClosed, s) end) in H.
+    assert (Hc : s_dropped (snd cs) = s_dropped s).
+    { subst cs. destruct (s_cancels s); [reflexivity|]. cbn [snd].
+      destruct (remove_request_shape n (set_cancels s l)) as [(_ & -> & _)|(_ & _ & _ & _ & _ & _ & _ & _ & _ & B8 & _)];
+        [reflexivity|exact B8]. }
+    destruct cs as [cst s1]. cbn [snd] in Hc.
+    destruct (poll_expired s1) as [est s2] eqn:EE.
+    destruct (poll_expired_shape _ _ _ EE) as (_ & _ & _ & _ & A1 & _).
+    assert (Hfin : forall rst sx r s', s_dropped sx = s_dropped s ->
+               match combine (combine cst est) rst with
+               | RSReady => base_poll_next tp f sx
+               | RSClosed => (PEnd, sx)
+               | RSPending => (PPending, sx)
+               end = (r, s') -> s_dropped s' = s_dropped s).
+    { intros rst sx r0 s0 Hx HH. destruct (combine (combine cst est) rst).
+      - rewrite (IH _ _ _ HH). exact Hx.
+      - injection HH as _ <-. exact Hx.
+      - injection HH as _ <-. exact Hx. }
+    destruct (s_fused s2).
+    - apply (Hfin RSClosed s2 r s'); [congruence|exact H].
+    - destruct (do_next tp s2) as [rr s3] eqn:EN. destruct (do_next_core tp _ _ _ EN) as ((_ & _ & _ & _ & _ & _ & _ & C1) & _).
+      destruct rr as [m| | |].
+      + destruct m as [id dl tr body|id tr].
+        * destruct (start_request id dl s3) as [[h s4]|] eqn:ES.
+          -- injection H as _ <-. destruct (start_request_shape _ _ _ _ _ ES) as (_ & _ & _ & _ & _ & _ & _ & _ & _ & Hh & _). congruence.
+          -- rewrite (IH _ _ _ H). congruence.
+        * apply (Hfin RSReady (cancel_request id s3) r s'); [|exact H].
+          destruct (cancel_request_shape id s3) as [(-> & _)|(e & _ & _ & _ & _ & _ & _ & _ & _ & B8 & _)]; congruence.
+      + injection H as _ <-. congruence.
+      + apply (Hfin RSClosed (set_fused s3 true) r s'); [sproj; congruence|exact H].
+      + apply (Hfin RSPending s3 r s'); [congruence|exact H].
+  Qed.
+
+  Lemma dropped_start_send : forall m (s : st) e s', base_start_send tp m s = (e, s') -> s_dropped s' = s_dropped s.
+  Proof.
+    intros m s e s' H.
+    destruct (base_start_send_shape tp _ _ _ _ H) as [(_ & _ & ->)|(_ & _ & _ & _ & _ & _ & _ & _ & _ & _ & _ & B8 & _)]; auto.
+  Qed.
+
+  Lemma dropped_maxreq : forall f limit (s : st) r s', maxreq_poll_next tp f limit s = (r, s') -> s_dropped s' = s_dropped s.
+  Proof.
+    induction f as [|f IH]; intros limit s r s' H; cbn [maxreq_poll_next] in H; [injection H as _ <-; reflexivity|].
+    destruct (limit <=? length (s_inflight s)).
+    - destruct (do_ready tp s) as [x s1] eqn:ER. destruct (do_ready_core tp _ _ _ ER) as ((_ & _ & _ & _ & _ & _ & _ & C1) & _).
+      destruct x; try (injection H as _ <-; exact C1).
+      destruct (base_poll_next tp (S f) s1) as [y s2] eqn:EB. pose proof (dropped_base _ _ _ _ EB) as H2.
+      destruct y; try (injection H as _ <-; congruence).
+      destruct (base_start_send tp (mkresp (q_id x) BThrottle) s2) as [e s3] eqn:ESS.
+      pose proof (dropped_start_send _ _ _ _ ESS) as H3.
+      destruct e; [injection H as _ <-; congruence|]. rewrite (IH _ _ _ _ H). congruence.
+    - exact (dropped_base _ _ _ _ H).
+  Qed.
+
+
+  Lemma dropped_pump_write : forall rc (s : st) w s', pump_write tp rc s = (w, s') -> s_dropped s' = s_dropped s.
+  Proof.
+    intros rc s w s' H.
+    unfold pump_write, poll_next_response in H.
+    destruct (ensure_writeable tp s) as [x s1] eqn:EW.
+    assert (H1 : s_dropped s1 = s_dropped s).
+    { unfold ensure_writeable in EW.
+      destruct (do_ready tp s) as [r sa] eqn:E1. destruct (do_ready_core tp _ _ _ E1) as ((_ & _ & _ & _ & _ & _ & _ & C1) & _).
+      destruct r; try (injection EW as _ <-; exact C1).
+      destruct (do_flush tp sa) as [f sb] eqn:E2. destruct (do_flush_core tp _ _ _ E2) as ((_ & _ & _ & _ & _ & _ & _ & C2) & _).
+      destruct f; try (injection EW as _ <-; congruence).
+      destruct (do_ready tp sb) as [r2 sc] eqn:E3. destruct (do_ready_core tp _ _ _ E3) as ((_ & _ & _ & _ & _ & _ & _ & C3) & _).
+      destruct r2; injection EW as _ <-; congruence. }
+    assert (Hfl : forall (w0 : pres unit) s0,
+      (let '(f, s2) := do_flush tp s1 in
+       match f with
+       | TOk => if rc && Nat.eqb (length (s_inflight s2)) 0 then (@PEnd unit, s2) else (PPending, s2)
+       | TErr => (PErr AFlush, s2)
+       | TPending => (PPending, s2)
+       end) = (w0, s0) -> s_dropped s0 = s_dropped s).
+    { intros w0 s0 HH. destruct (do_flush tp s1) as [f s2] eqn:EF.
+      destruct (do_flush_core tp _ _ _ EF) as ((_ & _ & _ & _ & _ & _ & _ & C2) & _).
+      destruct f; [destruct (rc && _)| |]; injection HH as _ <-; congruence. }
+    destruct x as [| |a].
+    - destruct (s_respq s1) as [|m q] eqn:EQ; [exact (Hfl w s' H)|].
+      destruct (base_start_send tp m (add_permit (set_respq s1 q))) as [e s2] eqn:ES.
+      pose proof (dropped_start_send _ _ _ _ ES) as H2.
+      destruct (add_permit_shape (set_respq s1 q)) as (_ & _ & _ & _ & _ & _ & _ & _ & A9 & _). cbv zeta in A9. sproj.
+      destruct e; injection H as _ <-; congruence.
+    - exact (Hfl w s' H).
+    - injection H as _ <-. exact H1.
+  Qed.
+
+  Lemma dropped_requests : forall c f (s : st) r s', requests_poll_next tp c f s = (r, s') -> s_dropped s' = s_dropped s.
+  Proof.
+    intros c f; induction f as [|f IH]; intros s r s' H; cbn [requests_poll_next] in H.
+    { injection H as _ <-. reflexivity. }
+    destruct (pump_read tp c (S f) s) as [rd s1] eqn:ER.
+    assert (H1 : s_dropped s1 = s_dropped s).
+    { unfold pump_read in ER. destruct (cfg_limit c); [exact (dropped_maxreq _ _ _ _ _ ER)|exact (dropped_base _ _ _ _ ER)]. }
+    destruct rd as [q| |a| |]; try (injection H as _ <-; exact H1).
+    - destruct (pump_write tp false s1) as [wr s2] eqn:EW. pose proof (dropped_pump_write _ _ _ _ EW) as R2.
+      destruct wr; injection H as _ <-; sproj; congruence.
+    - destruct (pump_write tp true s1) as [wr s2] eqn:EW. pose proof (dropped_pump_write _ _ _ _ EW) as R2.
+      destruct wr; try (injection H as _ <-; congruence). rewrite (IH _ _ _ H). congruence.
+    - destruct (pump_write tp false s1) as [wr s2] eqn:EW. pose proof (dropped_pump_write _ _ _ _ EW) as R2.
+      destruct wr; try (injection H as _ <-; congruence). rewrite (IH _ _ _ H). congruence.
+  Qed.
+
+  Lemma hrel_pump_write : forall rc (s : st) w s', pump_write tp rc s = (w, s') -> hrel s s'.
+  Proof.
+    intros rc s w s' H. unfold pump_write, poll_next_response in H.
+    destruct (ensure_writeable tp s) as [x s1] eqn:EW.
+    assert (H1 : s_handlers s1 = s_handlers s).
+    { unfold ensure_writeable in EW.
+      destruct (do_ready tp s) as [r sa] eqn:E1. destruct (do_ready_core tp _ _ _ E1) as ((C1 & _) & _).
+      destruct r; try (injection EW as _ <-; exact C1).
+      destruct (do_flush tp sa) as [f sb] eqn:E2. destruct (do_flush_core tp _ _ _ E2) as ((C2 & _) & _).
+      destruct f; try (injection EW as _ <-; congruence).
+      destruct (do_ready tp sb) as [r2 sc] eqn:E3. destruct (do_ready_core tp _ _ _ E3) as ((C3 & _) & _).
+      destruct r2; injection EW as _ <-; congruence. }
+    assert (Hfl : forall (w0 : pres unit) s0,
+      (let '(f, s2) := do_flush tp s1 in
+       match f with
+       | TOk => if rc && Nat.eqb (length (s_inflight s2)) 0 then (@PEnd unit, s2) else (PPending, s2)
+       | TErr => (PErr AFlush, s2)
+       | TPending => (PPending, s2)
+       end) = (w0, s0) -> hrel s s0).
+    { intros w0 s0 HH. destruct (do_flush tp s1) as [f s2] eqn:EF.
+      destruct (do_flush_core tp _ _ _ EF) as ((C2 & _) & _).
+      assert (hrel s s2) by (apply hrel_eq; congruence).
+      destruct f; [destruct (rc && _)| |]; injection HH as _ <-; assumption. }
+    destruct x as [| |a].
+    - destruct (s_respq s1) as [|m q] eqn:EQ; [exact (Hfl w s' H)|].
+      destruct (base_start_send tp m (add_permit (set_respq s1 q))) as [e s2] eqn:ES.
+      pose proof (handlers_start_send _ _ _ _ ES) as H2.
+      destruct (add_permit_shape (set_respq s1 q)) as (_ & A2 & _). cbv zeta in A2. sproj.
+      assert (hrel s s2).
+      { intros j hr' Hj. rewrite H2 in Hj. destruct (A2 j hr' Hj) as (hr & Hhr & _ & _ & E).
+        rewrite H1 in Hhr. exists hr. auto. }
+      destruct e; injection H as _ <-; assumption.
+    - exact (Hfl w s' H).
+    - injection H as _ <-. apply hrel_eq. exact H1.
+  Qed.
+
+  Lemma hrel_requests : forall c f (s : st) r s', requests_poll_next tp c f s = (r, s') -> hrel s s'.
+  Proof.
+    intros c f; induction f as [|f IH]; intros s r s' H; cbn [requests_poll_next] in H.
+    { injection H as _ <-. apply hrel_eq. reflexivity. }
+    destruct (pump_read tp c (S f) s) as [rd s1] eqn:ER.
+    assert (H1 : s_handlers s1 = s_handlers s).
+    { unfold pump_read in ER. destruct (cfg_limit c); [exact (handlers_maxreq _ _ _ _ _ ER)|exact (handlers_base _ _ _ _ ER)]. }
+    pose proof (hrel_eq _ _ H1) as R1.
+    destruct rd as [q| |a| |]; try (injection H as _ <-; exact R1).
+    - destruct (pump_write tp false s1) as [wr s2] eqn:EW. pose proof (hrel_pump_write _ _ _ _ EW) as R2.
+      assert (R02 : hrel s s2) by (eapply hrel_trans; eauto).
+      destruct wr; injection H as _ <-; try exact R02; intros j hr' Hj; sproj; exact (R02 j hr' Hj).
+    - destruct (pump_write tp true s1) as [wr s2] eqn:EW. pose proof (hrel_pump_write _ _ _ _ EW) as R2.
+      assert (R02 : hrel s s2) by (eapply hrel_trans; eauto).
+      destruct wr; try (injection H as _ <-; exact R02). eapply hrel_trans; [exact R02|exact (IH _ _ _ H)].
+    - destruct (pump_write tp false s1) as [wr s2] eqn:EW. pose proof (hrel_pump_write _ _ _ _ EW) as R2.
+      assert (R02 : hrel s s2) by (eapply hrel_trans; eauto).
+      destruct wr; try (injection H as _ <-; exact R02). eapply hrel_trans; [exact R02|exact (IH _ _ _ H)].
+  Qed.
+
+  (* handlers that wait for a permit (or hold one) carry a handler result, never the throttle reply *)
+  Definition hb_ok (s : st) : Prop :=
+    forall hr b, In hr (s_handlers s) -> (h_st hr = HWait b \/ h_st hr = HPermit b) -> b <> BThrottle.
+
+  Lemma hb_ok_hrel : forall (s s' : st), hb_ok s -> hrel s s' -> hb_ok s'.
+  Proof.
+    intros s s' Hb Hr hr' b Hin Hst. apply In_nth_error in Hin. destruct Hin as (j & Hj).
+    destruct (Hr j hr' Hj) as (hr & Hhr & E). apply nth_error_In in Hhr.
+    destruct E as [E|(b0 & E0 & E1)].
+    - apply (Hb hr b Hhr). rewrite <- E. exact Hst.
+    - rewrite E1 in Hst. destruct Hst as [Hst|Hst]; [discriminate|]. inversion Hst; subst b0.
+      apply (Hb hr b Hhr). left. exact E0.
+  Qed.
+End Hrel.
+
 Section Top.
   Context {T C : Type}.
   Variable tp : transport T response cmsg.
@@ -403,5 +664,634 @@ Section Top.
     destruct (IH (o_hevent o e) (gstep e oi) Hb Hk') as (I1 & I2 & I3 & I4 & I5 & I6 & I7 & I8).
     cbv zeta in *. rewrite I1, I2, I3, I4, I5, I6, I7, I8, S1, S2, S3, S4, S5, S6, S7, S8.
     rewrite upd_nth_comp. repeat split; reflexivity.
+  Qed.
+
+  Lemma gfold_pres : forall body i,
+    let i' := fold_left (fun x e => gstep e x) body i in
+    oi_id i' = oi_id i /\ oi_when i' = oi_when i /\ oi_wire i' = oi_wire i.
+  Proof.
+    induction body as [|e body IH]; intros i; cbv zeta; cbn [fold_left]; [repeat split; reflexivity|].
+    destruct (IH (gstep e i)) as (A & B & D). cbv zeta in *. rewrite A, B, D.
+    destruct e; cbn; repeat split; reflexivity.
+  Qed.
+
+  (* how one handler step may change the handler table *)
+  Definition hshape (k : nat) (hr : hrec) (st' : hstate) (s s1 : st) : Prop :=
+    map h_h (s_handlers s1) = map h_h (s_handlers s)
+    /\ forall j hr', nth_error (s_handlers s1) j = Some hr' ->
+         (j = k /\ h_id hr' = h_id hr /\ h_st hr' = st')
+         \/ (j <> k /\ exists hr0, nth_error (s_handlers s) j = Some hr0 /\ h_id hr' = h_id hr0
+                       /\ (h_st hr' = h_st hr0 \/ exists b, h_st hr0 = HWait b /\ h_st hr' = HPermit b)).
+
+  Lemma InvU_hevents : forall o (s s1 : st) k hr oi body st',
+    InvU o s -> nth_error (s_handlers s) k = Some hr -> nth_error (o_incs o) k = Some oi ->
+    forallb (for_k k) body = true ->
+    hshape k hr st' s s1 ->
+    (let i' := fold_left (fun x e => gstep e x) body oi in
+     phase_ok st' (oi_ph i') /\ done_ok st' (oi_done i')) ->
+    (forall id, In id (s_cancels s) -> In id (s_cancels s1)) ->
+    s_next_h s1 = s_next_h s -> s_inflight s1 = s_inflight s -> s_timers s1 = s_timers s ->
+    s_aborted s1 = s_aborted s -> s_now s1 = s_now s -> s_dropped s1 = s_dropped s ->
+    s_fused s1 = s_fused s ->
+    InvU (fold_left o_hevent body o) s1.
+  Proof.
+    intros o s s1 k hr oi body st' HI Hk Hoi Hb (Hm & Hsh) Hfin Hcan Hn Hi Ht Hab Hw Hd Hf.
+    destruct (hevents_proj k body o oi Hb Hoi) as (P1 & P2 & P3 & P4 & P5 & P6 & P7 & P8). cbv zeta in *.
+    apply (InvU_hupd o _ s s1 k (fun i => fold_left (fun x e => gstep e x) body i) HI Hm P1); auto.
+    - intros i _. destruct (gfold_pres body i) as (A & B & D). cbv zeta in *. auto.
+    - intros j hr' oi' Hj Hoi'. rewrite P1 in Hoi'.
+      destruct (Hsh j hr' Hj) as [(-> & Hid & Hst)|(Hne & hr0 & Hj0 & Hid & Hst)].
+      + rewrite (upd_nth_same _ _ _ _ Hoi) in Hoi'. inversion Hoi'; subst oi'.
+        destruct (gfold_pres body oi) as (A & _). cbv zeta in A.
+        destruct (u_hand _ _ HI k hr oi Hk Hoi) as (B1 & _).
+        rewrite Hst, A, Hid. split; [exact B1|exact Hfin].
+      + rewrite (upd_nth_other _ _ _ _ (not_eq_sym Hne)) in Hoi'.
+        destruct (u_hand _ _ HI j hr0 oi' Hj0 Hoi') as (B1 & B2 & B3 & _).
+        rewrite Hid. split; [exact B1|].
+        destruct Hst as [Hst|(b & Hs0 & Hs1)]; [rewrite Hst; auto|].
+        rewrite Hs0 in B2, B3. rewrite Hs1. cbn in *. destruct (oi_ph oi'); auto.
+    - intros E. rewrite P4. exact E.
+    - unfold pend_id. rewrite P5. reflexivity.
+  Qed.
+
+  Lemma for_k_plain : forall k body, forallb (for_k k) body = true -> forallb plain body = true.
+  Proof.
+    intros k body H. rewrite forallb_forall in *. intros e He. specialize (H e He).
+    destruct e; cbn in *; try discriminate; reflexivity.
+  Qed.
+
+  Lemma handled_hshape : forall (s s1 : st) k hr st',
+    handled s -> hshape k hr st' s s1 -> s_inflight s1 = s_inflight s -> handled s1.
+  Proof.
+    intros s s1 k hr st' Hh (Hm & _) Hi. apply (handled_sub s s1 Hh); [rewrite Hi; auto|exact Hm].
+  Qed.
+
+  Lemma top_hp_case : forall o (s s1 : st) k hs hr body st',
+    Top o s -> h_stop (o_v o) = true ->
+    nth_error (s_handlers s) k = Some hr -> forallb (for_k k) body = true ->
+    hshape k hr st' s s1 ->
+    (forall oi, nth_error (o_incs o) k = Some oi ->
+       phase_ok (h_st hr) (oi_ph oi) -> done_ok (h_st hr) (oi_done oi) ->
+       let i' := fold_left (fun x e => gstep e x) body oi in
+       phase_ok st' (oi_ph i') /\ done_ok st' (oi_done i')) ->
+    (forall id, In id (s_cancels s) -> In id (s_cancels s1)) ->
+    s_next_h s1 = s_next_h s -> s_inflight s1 = s_inflight s -> s_timers s1 = s_timers s ->
+    s_aborted s1 = s_aborted s -> s_now s1 = s_now s -> s_dropped s1 = s_dropped s ->
+    s_fused s1 = s_fused s -> no_thr s1 ->
+    Top (ostep lim o (@OHandlerPoll C k hs) (body ++ gauges s1)) s1.
+  Proof.
+    intros o s s1 k hs hr body st' HT EH Hk Hb Hsh Hfin Hcan Hn Hi Ht Hab Hw Hd Hf Hnt1.
+    rewrite (ostep_nonpoll (@OHandlerPoll C k hs) o _ EH I).
+    destruct (HT EH) as (HI & Hnt & Hr).
+    assert (Hoi : exists oi, nth_error (o_incs o) k = Some oi).
+    { assert (k < length (o_incs o)) by (rewrite (u_len _ _ HI); apply nth_error_Some; congruence).
+      apply nth_error_Some in H. destruct (nth_error (o_incs o) k); [eauto|congruence]. }
+    destruct Hoi as (oi & Hoi).
+    destruct (u_hand _ _ HI k hr oi Hk Hoi) as (_ & Hph & Hdn & _).
+    destruct (hevents_proj k body o oi Hb Hoi) as (P1 & P2 & P3 & P4 & P5 & P6 & P7 & P8). cbv zeta in *.
+    destruct (top_tail (fold_left o_hevent body o) s1 body (for_k_plain _ _ Hb)) as (A & B).
+    - intros _. split; [|split; [exact Hnt1|]].
+      + eapply (InvU_hevents o s s1 k hr oi body st'); eauto.
+      + intros Hc. rewrite P7 in Hc. eapply handled_hshape; eauto. exact (proj1 (Hr Hc)).
+    - rewrite B. exact A.
+  Qed.
+
+  Lemma hshape_set : forall (s sx : st) k hr st',
+    nth_error (s_handlers s) k = Some hr ->
+    map h_h (s_handlers sx) = map h_h (s_handlers s) ->
+    (forall j hr', nth_error (s_handlers sx) j = Some hr' ->
+       exists hr0, nth_error (s_handlers s) j = Some hr0 /\ h_h hr' = h_h hr0 /\ h_id hr' = h_id hr0
+                   /\ (h_st hr' = h_st hr0 \/ exists b, h_st hr0 = HWait b /\ h_st hr' = HPermit b)) ->
+    forall s1, s_handlers s1 = set_hst k st' (s_handlers sx) -> hshape k hr st' s s1.
+  Proof.
+    intros s sx k hr st' Hk Hm Hrel s1 Hs1. split.
+    - rewrite Hs1, set_hst_map_h. exact Hm.
+    - intros j hr' Hj. rewrite Hs1 in Hj. destruct (Nat.eq_dec k j) as [->|Hne].
+      + left. destruct (nth_error (s_handlers sx) j) as [hx|] eqn:Ex.
+        * rewrite (set_hst_same _ _ _ _ Ex) in Hj. inversion Hj; subst hr'. cbn.
+          destruct (Hrel j hx Ex) as (hr0 & H0 & _ & Hid & _). rewrite Hk in H0. inversion H0; subst hr0.
+          repeat split; auto.
+        * exfalso. assert (j < length (s_handlers sx)).
+          { rewrite <- (map_length h_h), Hm, map_length. apply nth_error_Some. congruence. }
+          apply nth_error_Some in H. congruence.
+      + right. split; [auto|]. rewrite (set_hst_other _ _ _ _ Hne) in Hj.
+        destruct (Hrel j hr' Hj) as (hr0 & H0 & _ & Hid & Hst). eauto.
+  Qed.
+
+  Lemma hrel_refl : forall (s : st) j hr', nth_error (s_handlers s) j = Some hr' ->
+    exists hr0, nth_error (s_handlers s) j = Some hr0 /\ h_h hr' = h_h hr0 /\ h_id hr' = h_id hr0
+                /\ (h_st hr' = h_st hr0 \/ exists b, h_st hr0 = HWait b /\ h_st hr' = HPermit b).
+  Proof. intros. exists hr'. auto. Qed.
+
+  Lemma no_thr_push : forall (s : st) id b, no_thr s -> b <> BThrottle -> 
+    forall m, In m (s_respq s ++ [mkresp id b]) -> resp_body m <> BThrottle.
+  Proof.
+    intros s id b Hnt Hb m Hm. apply in_app_or in Hm. destruct Hm as [Hm|[<-|[]]]; [exact (Hnt m Hm)|exact Hb].
+  Qed.
+
+  Lemma top_handler_poll : forall o (s : st) k hs s' l,
+    Top o s -> hb_ok s -> step tp ctl tfuel c s (OHandlerPoll k hs) = (s', l) ->
+    Top (ostep lim o (@OHandlerPoll C k hs) l) s'.
+  Proof.
+    intros o s k hs s' l HT Hhb H. unfold step in H.
+    destruct (execute_poll k hs s) as [s1 body] eqn:EE. injection H as <- <-.
+    destruct (h_stop (o_v o)) eqn:EH; [|unfold ostep; rewrite EH; cbn [negb]; intros Hf; congruence].
+    destruct (HT EH) as (HI & Hnt & Hr).
+    (* nothing happens *)
+    assert (Hnop : s1 = s -> body = [] ->
+              Top (ostep lim o (@OHandlerPoll C k hs) (body ++ gauges s1)) s1).
+    { intros -> ->. rewrite (ostep_nonpoll (@OHandlerPoll C k hs) o _ EH I).
+      destruct (top_tail o s [] eq_refl) as (A & B).
+      - intros _. split; [exact HI|split; [exact Hnt|intros Hc; exact (proj1 (Hr Hc))]].
+      - cbn [app] in *. rewrite B. exact A. }
+    unfold execute_poll in EE.
+    destruct (nth_error (s_handlers s) k) as [hr|] eqn:Hk; [|injection EE as <- <-; apply Hnop; reflexivity].
+    destruct (add_permit_shape s) as (P1 & P2 & P3 & P4 & P5 & P6 & P7 & P8 & P9 & P10 & P11 & P12 & P13).
+    cbv zeta in *.
+    assert (Hrel_s : forall j hr', nth_error (s_handlers s) j = Some hr' ->
+               exists hr0, nth_error (s_handlers s) j = Some hr0 /\ h_h hr' = h_h hr0 /\ h_id hr' = h_id hr0
+                 /\ (h_st hr' = h_st hr0 \/ exists b, h_st hr0 = HWait b /\ h_st hr' = HPermit b))
+      by (apply hrel_refl).
+    assert (Hrel_p : forall j hr', nth_error (s_handlers (add_permit s)) j = Some hr' ->
+               exists hr0, nth_error (s_handlers s) j = Some hr0 /\ h_h hr' = h_h hr0 /\ h_id hr' = h_id hr0
+                 /\ (h_st hr' = h_st hr0 \/ exists b, h_st hr0 = HWait b /\ h_st hr' = HPermit b)).
+    { intros j hr' Hj. destruct (P2 j hr' Hj) as (hr0 & A & B & D & E). eauto. }
+    (* every real step goes through top_hp_case *)
+    assert (Hcase : forall body0 (s0 : st) st',
+              forallb (for_k k) body0 = true -> hshape k hr st' s s0 ->
+              (forall oi, phase_ok (h_st hr) (oi_ph oi) -> done_ok (h_st hr) (oi_done oi) ->
+                 let i' := fold_left (fun x e => gstep e x) body0 oi in
+                 phase_ok st' (oi_ph i') /\ done_ok st' (oi_done i')) ->
+              s_cancels s0 = s_cancels s -> s_next_h s0 = s_next_h s -> s_inflight s0 = s_inflight s ->
+              s_timers s0 = s_timers s -> s_aborted s0 = s_aborted s -> s_now s0 = s_now s ->
+              s_dropped s0 = s_dropped s -> s_fused s0 = s_fused s -> no_thr s0 ->
+              Top (ostep lim o (@OHandlerPoll C k hs) (body0 ++ gauges s0)) s0).
+    { intros body0 s0 st' Hb Hsh Hfin Hc Hn Hi Ht Hab Hw Hd Hf Hnt0.
+      eapply (top_hp_case o s s0 k hs hr body0 st'); eauto.
+      intros id Hin. rewrite Hc. exact Hin. }
+    destruct (h_st hr) eqn:Est.
+    - (* HYielded *)
+      destruct (existsb (Nat.eqb (h_h hr)) (s_aborted s)).
+      + injection EE as <- <-.
+        apply (Hcase [OExecReady k] _ HDone); try reflexivity; try exact Hnt; try (sproj; exact ED).
+        * cbn. rewrite Nat.eqb_refl. reflexivity.
+        * eapply (hshape_set s s); eauto.
+        * intros oi _ _. cbn. auto.
+      + destruct hs as [|v|].
+        * injection EE as <- <-.
+          apply (Hcase [OHPolled k; OExecPending k] _ HRunning); try reflexivity; try exact Hnt; try (sproj; exact ED).
+          -- cbn. rewrite Nat.eqb_refl. reflexivity.
+          -- eapply (hshape_set s s); eauto.
+          -- intros oi _ Hd0. cbn in *. auto.
+        * destruct (s_dropped s) eqn:ED; [|destruct (s_permits s) as [|p] eqn:EPm]; injection EE as <- <-.
+          -- apply (Hcase [OHPolled k; OHDone k (BOk v); OExecReady k] _ HDone); try reflexivity; try exact Hnt; try (sproj; exact ED).
+             ++ cbn. rewrite Nat.eqb_refl. reflexivity.
+             ++ eapply (hshape_set s s); eauto.
+             ++ intros oi _ _. cbn. auto.
+          -- apply (Hcase [OHPolled k; OHDone k (BOk v); OExecPending k] _ (HWait (BOk v))); try reflexivity; try exact Hnt; try (sproj; exact ED).
+             ++ cbn. rewrite Nat.eqb_refl. reflexivity.
+             ++ eapply (hshape_set s s); eauto.
+             ++ intros oi _ _. cbn. auto.
+          -- apply (Hcase [OHPolled k; OHDone k (BOk v); OExecReady k] _ HDone); try reflexivity; try (sproj; exact ED).
+             ++ cbn. rewrite Nat.eqb_refl. reflexivity.
+             ++ eapply (hshape_set s s); eauto.
+             ++ intros oi _ _. cbn. auto.
+             ++ intros m Hm. sproj. eapply no_thr_push; eauto. discriminate.
+        * destruct (s_dropped s) eqn:ED; [|destruct (s_permits s) as [|p] eqn:EPm]; injection EE as <- <-.
+          -- apply (Hcase [OHPolled k; OHDone k BErr; OExecReady k] _ HDone); try reflexivity; try exact Hnt; try (sproj; exact ED).
+             ++ cbn. rewrite Nat.eqb_refl. reflexivity.
+             ++ eapply (hshape_set s s); eauto.
+             ++ intros oi _ _. cbn. auto.
+          -- apply (Hcase [OHPolled k; OHDone k BErr; OExecPending k] _ (HWait BErr)); try reflexivity; try exact Hnt; try (sproj; exact ED).
+             ++ cbn. rewrite Nat.eqb_refl. reflexivity.
+             ++ eapply (hshape_set s s); eauto.
+             ++ intros oi _ _. cbn. auto.
+          -- apply (Hcase [OHPolled k; OHDone k BErr; OExecReady k] _ HDone); try reflexivity; try (sproj; exact ED).
+             ++ cbn. rewrite Nat.eqb_refl. reflexivity.
+             ++ eapply (hshape_set s s); eauto.
+             ++ intros oi _ _. cbn. auto.
+             ++ intros m Hm. sproj. eapply no_thr_push; eauto. discriminate.
+    - (* HRunning *)
+      destruct (existsb (Nat.eqb (h_h hr)) (s_aborted s)).
+      + injection EE as <- <-.
+        apply (Hcase [OHDropped k; OExecReady k] _ HDone); try reflexivity; try exact Hnt; try (sproj; exact ED).
+        * cbn. rewrite Nat.eqb_refl. reflexivity.
+        * eapply (hshape_set s s); eauto.
+        * intros oi _ _. cbn. auto.
+      + destruct hs as [|v|].
+        * injection EE as <- <-.
+          apply (Hcase [OHPolled k; OExecPending k] _ HRunning); try reflexivity; try exact Hnt; try (sproj; exact ED).
+          -- cbn. rewrite Nat.eqb_refl. reflexivity.
+          -- eapply (hshape_set s s); eauto.
+          -- intros oi _ Hd0. cbn in *. auto.
+        * destruct (s_dropped s) eqn:ED; [|destruct (s_permits s) as [|p] eqn:EPm]; injection EE as <- <-.
+          -- apply (Hcase [OHPolled k; OHDone k (BOk v); OExecReady k] _ HDone); try reflexivity; try exact Hnt; try (sproj; exact ED).
+             ++ cbn. rewrite Nat.eqb_refl. reflexivity.
+             ++ eapply (hshape_set s s); eauto.
+             ++ intros oi _ _. cbn. auto.
+          -- apply (Hcase [OHPolled k; OHDone k (BOk v); OExecPending k] _ (HWait (BOk v))); try reflexivity; try exact Hnt; try (sproj; exact ED).
+             ++ cbn. rewrite Nat.eqb_refl. reflexivity.
+             ++ eapply (hshape_set s s); eauto.
+             ++ intros oi _ _. cbn. auto.
+          -- apply (Hcase [OHPolled k; OHDone k (BOk v); OExecReady k] _ HDone); try reflexivity; try (sproj; exact ED).
+             ++ cbn. rewrite Nat.eqb_refl. reflexivity.
+             ++ eapply (hshape_set s s); eauto.
+             ++ intros oi _ _. cbn. auto.
+             ++ intros m Hm. sproj. eapply no_thr_push; eauto. discriminate.
+        * destruct (s_dropped s) eqn:ED; [|destruct (s_permits s) as [|p] eqn:EPm]; injection EE as <- <-.
+          -- apply (Hcase [OHPolled k; OHDone k BErr; OExecReady k] _ HDone); try reflexivity; try exact Hnt; try (sproj; exact ED).
+             ++ cbn. rewrite Nat.eqb_refl. reflexivity.
+             ++ eapply (hshape_set s s); eauto.
+             ++ intros oi _ _. cbn. auto.
+          -- apply (Hcase [OHPolled k; OHDone k BErr; OExecPending k] _ (HWait BErr)); try reflexivity; try exact Hnt; try (sproj; exact ED).
+             ++ cbn. rewrite Nat.eqb_refl. reflexivity.
+             ++ eapply (hshape_set s s); eauto.
+             ++ intros oi _ _. cbn. auto.
+          -- apply (Hcase [OHPolled k; OHDone k BErr; OExecReady k] _ HDone); try reflexivity; try (sproj; exact ED).
+             ++ cbn. rewrite Nat.eqb_refl. reflexivity.
+             ++ eapply (hshape_set s s); eauto.
+             ++ intros oi _ _. cbn. auto.
+             ++ intros m Hm. sproj. eapply no_thr_push; eauto. discriminate.
+    - (* HWait *)
+      destruct (existsb (Nat.eqb (h_h hr)) (s_aborted s)); [|destruct (s_dropped s) eqn:ED]; injection EE as <- <-.
+      + apply (Hcase [OExecReady k] _ HDone); try reflexivity; try exact Hnt; try (sproj; exact ED).
+        * cbn. rewrite Nat.eqb_refl. reflexivity.
+        * eapply (hshape_set s s); eauto.
+        * intros oi _ _. cbn. auto.
+      + apply (Hcase [OExecReady k] _ HDone); try reflexivity; try exact Hnt; try (sproj; exact ED).
+        * cbn. rewrite Nat.eqb_refl. reflexivity.
+        * eapply (hshape_set s s); eauto.
+        * intros oi _ _. cbn. auto.
+      + apply (Hcase [OExecPending k] s (HWait b)); try reflexivity; try exact Hnt; try (sproj; exact ED).
+        * cbn. rewrite Nat.eqb_refl. reflexivity.
+        * split; [reflexivity|]. intros j hr' Hj. destruct (Nat.eq_dec j k) as [->|Hne].
+          -- left. rewrite Hk in Hj. inversion Hj; subst hr'. auto.
+          -- right. split; [exact Hne|]. exists hr'. auto.
+        * intros oi Hp Hd0. cbn. auto.
+    - (* HPermit *)
+      destruct (existsb (Nat.eqb (h_h hr)) (s_aborted s)); [|destruct (s_dropped s) eqn:ED]; injection EE as <- <-.
+      + apply (Hcase [OExecReady k] _ HDone); sproj; try reflexivity; try congruence.
+        * cbn. rewrite Nat.eqb_refl. reflexivity.
+        * eapply (hshape_set s (add_permit s)); eauto.
+        * intros oi _ _. cbn. auto.
+        * intros m Hm. apply Hnt. rewrite <- P11. exact Hm.
+      + apply (Hcase [OExecReady k] _ HDone); try reflexivity; try exact Hnt; try (sproj; exact ED).
+        * cbn. rewrite Nat.eqb_refl. reflexivity.
+        * eapply (hshape_set s s); eauto.
+        * intros oi _ _. cbn. auto.
+      + apply (Hcase [OExecReady k] _ HDone); try reflexivity; try (sproj; exact ED).
+        * cbn. rewrite Nat.eqb_refl. reflexivity.
+        * eapply (hshape_set s s); eauto.
+        * intros oi _ _. cbn. auto.
+        * intros m Hm. sproj. eapply no_thr_push; eauto.
+          apply (Hhb hr b); [eapply nth_error_In; eauto|right; exact Est].
+    - injection EE as <- <-. apply Hnop; reflexivity.
+    - injection EE as <- <-. apply Hnop; reflexivity.
+  Qed.
+
+  (* ---- the application drops an execute() future or an unexecuted request ---------------------- *)
+  Definition gdrop (dropped : bool) (i : oinc) : oinc :=
+    set_ph (if dropped then i else match oi_wire i with WOpen => set_wire i WMaybe | _ => i end) PEnded.
+
+  Lemma guard_dropped_proj : forall k need o oi,
+    nth_error (o_incs o) k = Some oi ->
+    (match oi_ph oi, need with PFresh, PFresh | PStarted, PStarted => true | _, _ => false end) = true ->
+    let o' := guard_dropped k need o in
+    o_incs o' = upd_nth k (gdrop (o_dropped o)) (o_incs o)
+    /\ o_now o' = o_now o /\ o_dropped o' = o_dropped o /\ o_eof o' = o_eof o /\ o_pend o' = o_pend o
+    /\ o_gauge o' = o_gauge o /\ c_err (o_v o') = c_err (o_v o) /\ h_stop (o_v o') = h_stop (o_v o).
+  Proof.
+    intros k need o oi Hk Hsame. cbv zeta. unfold guard_dropped, gdrop. rewrite Hk, Hsame.
+    destruct (o_dropped o) eqn:EO; cbn [negb andb]; oproj; rewrite ?EO; repeat split; reflexivity.
+  Qed.
+
+  Lemma guard_dropped_noop : forall k need o oi,
+    nth_error (o_incs o) k = Some oi ->
+    (match oi_ph oi, need with PFresh, PFresh | PStarted, PStarted => true | _, _ => false end) = false ->
+    guard_dropped k need o = o.
+  Proof. intros k need o oi Hk Hs. unfold guard_dropped. rewrite Hk, Hs. reflexivity. Qed.
+
+  (* the common part: incarnation k ends, its guard queues a server-side cancel *)
+  Lemma top_drop_case : forall o (s s1 : st) (p : op C) k need hr body,
+    Top o s -> h_stop (o_v o) = true ->
+    match p with ODropHandler k' | ODropYielded k' => k' = k | _ => False end ->
+    (match p with ODropHandler _ => need = PStarted | _ => need = PFresh end) ->
+    nth_error (s_handlers s) k = Some hr ->
+    (match need with PStarted => match h_st hr with HRunning | HWait _ | HPermit _ => True | _ => False end
+                | _ => h_st hr = HYielded end) ->
+    forallb (for_k k) body = true ->
+    (forall i, fold_left (fun x e => gstep e x) body i = i) ->
+    hshape k hr HGone s s1 ->
+    s_cancels s1 = (if s_dropped s then s_cancels s else s_cancels s ++ [h_id hr]) ->
+    s_next_h s1 = s_next_h s -> s_inflight s1 = s_inflight s -> s_timers s1 = s_timers s ->
+    s_aborted s1 = s_aborted s -> s_now s1 = s_now s -> s_dropped s1 = s_dropped s ->
+    s_fused s1 = s_fused s -> s_respq s1 = s_respq s ->
+    Top (ostep lim o p (body ++ gauges s1)) s1.
+  Proof.
+    intros o s s1 p k need hr body HT EH Hp Hneed Hk Hst Hb Hbid Hsh Hcan Hn Hi Ht Hab Hw Hd Hf Hq.
+    destruct (HT EH) as (HI & Hnt & Hr).
+    assert (Hoi : exists oi, nth_error (o_incs o) k = Some oi).
+    { assert (k < length (o_incs o)) by (rewrite (u_len _ _ HI); apply nth_error_Some; congruence).
+      apply nth_error_Some in H. destruct (nth_error (o_incs o) k); [eauto|congruence]. }
+    destruct Hoi as (oi & Hoi).
+    destruct (u_hand _ _ HI k hr oi Hk Hoi) as (Hid & Hph & Hdn & _).
+    destruct (hevents_proj k body o oi Hb Hoi) as (P1 & P2 & P3 & P4 & P5 & P6 & P7 & P8). cbv zeta in *.
+    assert (P1' : o_incs (fold_left o_hevent body o) = o_incs o).
+    { rewrite P1. rewrite <- (upd_nth_id k (o_incs o)) at 2.
+      clear -Hbid. generalize (o_incs o). intros l. revert k. induction l; destruct k; cbn; auto.
+      - rewrite Hbid. reflexivity.
+      - f_equal. apply IHl. }
+    set (ob := fold_left o_hevent body o) in *.
+    assert (Hsame : (match oi_ph oi, need with PFresh, PFresh | PStarted, PStarted => true | _, _ => false end) = true).
+    { assert (need <> PEnded) by (destruct p; try contradiction; subst need; discriminate).
+      destruct need; try congruence; destruct (h_st hr); cbn in Hst; try contradiction; try discriminate;
+        destruct (oi_ph oi); cbn in Hph; try contradiction; reflexivity. }
+    assert (Hoib : nth_error (o_incs ob) k = Some oi) by (rewrite P1'; exact Hoi).
+    destruct (guard_dropped_proj k need ob oi Hoib Hsame) as (G1 & G2 & G3 & G4 & G5 & G6 & G7 & G8). cbv zeta in *.
+    assert (HIg : InvU (guard_dropped k need ob) s1).
+    { destruct Hsh as (Hm & Hshape).
+      apply (InvU_hupd o _ s s1 k (gdrop (o_dropped o)) HI Hm).
+      - rewrite G1, P1', P3. reflexivity.
+      - intros i Hi0. rewrite Hoi in Hi0. inversion Hi0; subst i. unfold gdrop.
+        destruct (o_dropped o) eqn:EO; cbn; [repeat split; auto|].
+        destruct (oi_wire oi) eqn:EW; cbn; rewrite ?EW; repeat split; auto.
+        right. repeat split; auto. rewrite Hcan. rewrite <- (u_dropped _ _ HI), EO.
+        apply in_or_app. right. left. symmetry. exact Hid.
+      - intros j hr' oi' Hj Hoi'. rewrite G1, P1', P3 in Hoi'.
+        destruct (Hshape j hr' Hj) as [(-> & Hid' & Hst')|(Hne & hr0 & Hj0 & Hid' & Hst')].
+        + rewrite (upd_nth_same _ _ _ _ Hoi) in Hoi'. inversion Hoi'; subst oi'. rewrite Hst', Hid'.
+          unfold gdrop. destruct (o_dropped o); cbn; [auto|]. destruct (oi_wire oi); cbn; auto.
+        + rewrite (upd_nth_other _ _ _ _ (not_eq_sym Hne)) in Hoi'.
+          destruct (u_hand _ _ HI j hr0 oi' Hj0 Hoi') as (B1 & B2 & B3 & _).
+          rewrite Hid'. split; [exact B1|].
+          destruct Hst' as [Hst'|(b & Hs0 & Hs1)]; [rewrite Hst'; auto|].
+          rewrite Hs0 in B2, B3. rewrite Hs1. cbn in *. destruct (oi_ph oi'); auto.
+      - intros id Hin. rewrite Hcan. destruct (s_dropped s); [exact Hin|apply in_or_app; left; exact Hin].
+      - rewrite G2, P2. reflexivity.
+      - rewrite G3, P3. reflexivity.
+      - intros E. rewrite G4, P4. exact E.
+      - unfold pend_id. rewrite G5, P5. reflexivity.
+      - rewrite G7, P7. reflexivity.
+      - exact Hn.
+      - exact Hi.
+      - exact Ht.
+      - exact Hab.
+      - exact Hw.
+      - exact Hd.
+      - exact Hf. }
+    assert (Hpl : forallb plain body = true) by (eapply for_k_plain; eauto).
+    assert (Hfinal : Top (otail (guard_dropped k need ob) (snd (split_gauges (body ++ gauges s1)))) s1
+                     /\ fst (split_gauges (body ++ gauges s1)) = body).
+    { apply top_tail; [exact Hpl|]. intros _. split; [exact HIg|split].
+      - intros m Hm. apply Hnt. rewrite <- Hq. exact Hm.
+      - intros Hc. rewrite G7, P7 in Hc. eapply handled_hshape; eauto. exact (proj1 (Hr Hc)). }
+    destruct Hfinal as (A & B).
+    destruct p as [|x|k' hs'|k'|k'| |dt]; try contradiction; subst.
+    - rewrite (ostep_nonpoll (@ODropHandler C k) o _ EH I). rewrite B. exact A.
+    - rewrite (ostep_nonpoll (@ODropYielded C k) o _ EH I). rewrite B. exact A.
+  Qed.
+
+  Lemma top_drop_noop : forall o (s : st) (p : op C) k need,
+    Top o s -> h_stop (o_v o) = true ->
+    match p with ODropHandler k' | ODropYielded k' => k' = k | _ => False end ->
+    (match p with ODropHandler _ => need = PStarted | _ => need = PFresh end) ->
+    (forall hr, nth_error (s_handlers s) k = Some hr ->
+       match need with PStarted => match h_st hr with HRunning | HWait _ | HPermit _ => False | _ => True end
+                  | _ => h_st hr <> HYielded end) ->
+    Top (ostep lim o p ([] ++ gauges s)) s.
+  Proof.
+    intros o s p k need HT EH Hp Hneed Hno.
+    destruct (HT EH) as (HI & Hnt & Hr).
+    assert (Hg : guard_dropped k need o = o).
+    { unfold guard_dropped. destruct (nth_error (o_incs o) k) as [oi|] eqn:Hoi; [|reflexivity].
+      assert (Hlt : k < length (s_handlers s)) by (rewrite <- (u_len _ _ HI); apply nth_error_Some; congruence).
+      apply nth_error_Some in Hlt. destruct (nth_error (s_handlers s) k) as [hr|] eqn:Hk; [|congruence].
+      destruct (u_hand _ _ HI k hr oi Hk Hoi) as (_ & Hph & _). specialize (Hno hr eq_refl).
+      assert (Hs : (match oi_ph oi, need with PFresh, PFresh | PStarted, PStarted => true | _, _ => false end) = false).
+      { destruct p; try contradiction; subst need; destruct (h_st hr); cbn in *; try contradiction; try congruence;
+          destruct (oi_ph oi); cbn in *; try contradiction; reflexivity. }
+      rewrite Hs. reflexivity. }
+    destruct (top_tail o s [] eq_refl) as (A & B).
+    - intros _. split; [exact HI|split; [exact Hnt|intros Hc; exact (proj1 (Hr Hc))]].
+    - destruct p as [|x|k' hs'|k'|k'| |dt]; try contradiction; subst.
+      + rewrite (ostep_nonpoll (@ODropHandler C k) o _ EH I). rewrite B. cbn [fold_left]. rewrite Hg. exact A.
+      + rewrite (ostep_nonpoll (@ODropYielded C k) o _ EH I). rewrite B. cbn [fold_left]. rewrite Hg. exact A.
+  Qed.
+
+  Lemma top_drop_handler : forall o (s : st) k s' l,
+    Top o s -> step tp ctl tfuel c s (ODropHandler k) = (s', l) -> Top (ostep lim o (@ODropHandler C k) l) s'.
+  Proof.
+    intros o s k s' l HT H. unfold step in H.
+    destruct (drop_handler k s) as [s1 body] eqn:EE. injection H as <- <-.
+    destruct (h_stop (o_v o)) eqn:EH; [|unfold ostep; rewrite EH; cbn [negb]; intros Hf; congruence].
+    unfold drop_handler in EE.
+    destruct (nth_error (s_handlers s) k) as [hr|] eqn:Hk.
+    2: { injection EE as <- <-. apply (top_drop_noop o s (@ODropHandler C k) k PStarted HT EH eq_refl eq_refl).
+         intros hr Hhr. congruence. }
+    destruct (add_permit_shape s) as (P1 & P2 & P3 & P4 & P5 & P6 & P7 & P8 & P9 & P10 & P11 & P12 & P13).
+    cbv zeta in *.
+    assert (Hrel_p : forall j hr', nth_error (s_handlers (add_permit s)) j = Some hr' ->
+               exists hr0, nth_error (s_handlers s) j = Some hr0 /\ h_h hr' = h_h hr0 /\ h_id hr' = h_id hr0
+                 /\ (h_st hr' = h_st hr0 \/ exists b, h_st hr0 = HWait b /\ h_st hr' = HPermit b)).
+    { intros j hr' Hj. destruct (P2 j hr' Hj) as (hr0 & A & B & D & E). eauto. }
+    assert (Hnoop : match h_st hr with HRunning | HWait _ | HPermit _ => False | _ => True end ->
+              s1 = s -> body = [] -> Top (ostep lim o (@ODropHandler C k) (body ++ gauges s1)) s1).
+    { intros Hn -> ->. apply (top_drop_noop o s (@ODropHandler C k) k PStarted HT EH eq_refl eq_refl).
+      intros hr0 Hhr0. rewrite Hk in Hhr0. inversion Hhr0; subst hr0. exact Hn. }
+    unfold guard_cancel in EE.
+    destruct (h_st hr) eqn:Est; try (injection EE as <- <-; apply Hnoop; auto; fail).
+    - (* HRunning *)
+      injection EE as <- <-. sproj.
+      apply (top_drop_case o s _ (@ODropHandler C k) k PStarted hr [OHDropped k] HT EH eq_refl eq_refl Hk).
+      + rewrite Est. exact I.
+      + cbn. rewrite Nat.eqb_refl. reflexivity.
+      + intros i. reflexivity.
+      + destruct (s_dropped s); eapply (hshape_set s s); eauto using hrel_refl.
+      + destruct (s_dropped s); reflexivity.
+      + destruct (s_dropped s); reflexivity.
+      + destruct (s_dropped s); reflexivity.
+      + destruct (s_dropped s); reflexivity.
+      + destruct (s_dropped s); reflexivity.
+      + destruct (s_dropped s); reflexivity.
+      + destruct (s_dropped s) eqn:ED; sproj; rewrite ?ED; reflexivity.
+      + destruct (s_dropped s); reflexivity.
+      + destruct (s_dropped s); reflexivity.
+    - (* HWait *)
+      injection EE as <- <-. sproj.
+      apply (top_drop_case o s _ (@ODropHandler C k) k PStarted hr [] HT EH eq_refl eq_refl Hk).
+      + rewrite Est. exact I.
+      + reflexivity.
+      + intros i. reflexivity.
+      + destruct (s_dropped s); eapply (hshape_set s s); eauto using hrel_refl.
+      + destruct (s_dropped s); reflexivity.
+      + destruct (s_dropped s); reflexivity.
+      + destruct (s_dropped s); reflexivity.
+      + destruct (s_dropped s); reflexivity.
+      + destruct (s_dropped s); reflexivity.
+      + destruct (s_dropped s); reflexivity.
+      + destruct (s_dropped s) eqn:ED; sproj; rewrite ?ED; reflexivity.
+      + destruct (s_dropped s); reflexivity.
+      + destruct (s_dropped s); reflexivity.
+    - (* HPermit *)
+      injection EE as <- <-. sproj.
+      apply (top_drop_case o s _ (@ODropHandler C k) k PStarted hr [] HT EH eq_refl eq_refl Hk).
+      + rewrite Est. exact I.
+      + reflexivity.
+      + intros i. reflexivity.
+      + destruct (s_dropped (add_permit s)); eapply (hshape_set s (add_permit s)); eauto.
+      + rewrite P9. destruct (s_dropped s); sproj; rewrite ?P7; reflexivity.
+      + rewrite P9. destruct (s_dropped s); sproj; rewrite ?P3; reflexivity.
+      + rewrite P9. destruct (s_dropped s); sproj; rewrite ?P4; reflexivity.
+      + rewrite P9. destruct (s_dropped s); sproj; rewrite ?P5; reflexivity.
+      + rewrite P9. destruct (s_dropped s); sproj; rewrite ?P6; reflexivity.
+      + rewrite P9. destruct (s_dropped s); sproj; rewrite ?P8; reflexivity.
+      + rewrite P9. destruct (s_dropped s) eqn:ED; sproj; rewrite ?P9, ?ED; reflexivity.
+      + rewrite P9. destruct (s_dropped s); sproj; rewrite ?P10; reflexivity.
+      + rewrite P9. destruct (s_dropped s); sproj; rewrite ?P11; reflexivity.
+  Qed.
+
+  Lemma top_drop_yielded : forall o (s : st) k s' l,
+    Top o s -> step tp ctl tfuel c s (ODropYielded k) = (s', l) -> Top (ostep lim o (@ODropYielded C k) l) s'.
+  Proof.
+    intros o s k s' l HT H. unfold step in H.
+    destruct (drop_yielded k s) as [s1 body] eqn:EE. injection H as <- <-.
+    destruct (h_stop (o_v o)) eqn:EH; [|unfold ostep; rewrite EH; cbn [negb]; intros Hf; congruence].
+    unfold drop_yielded in EE.
+    destruct (nth_error (s_handlers s) k) as [[h i stt]|] eqn:Hk.
+    2: { injection EE as <- <-. apply (top_drop_noop o s (@ODropYielded C k) k PFresh HT EH eq_refl eq_refl).
+         intros hr Hhr. congruence. }
+    assert (Hnoop : stt <> HYielded -> s1 = s -> body = [] ->
+              Top (ostep lim o (@ODropYielded C k) (body ++ gauges s1)) s1).
+    { intros Hn -> ->. apply (top_drop_noop o s (@ODropYielded C k) k PFresh HT EH eq_refl eq_refl).
+      intros hr0 Hhr0. rewrite Hk in Hhr0. inversion Hhr0; subst hr0. exact Hn. }
+    destruct stt; try (injection EE as <- <-; apply Hnoop; auto; discriminate).
+    unfold guard_cancel in EE. injection EE as <- <-. sproj.
+    apply (top_drop_case o s _ (@ODropYielded C k) k PFresh _ [] HT EH eq_refl eq_refl Hk).
+    - reflexivity.
+    - reflexivity.
+    - intros i0. reflexivity.
+    - destruct (s_dropped s); eapply (hshape_set s s); eauto using hrel_refl.
+    - destruct (s_dropped s); reflexivity.
+    - destruct (s_dropped s); reflexivity.
+    - destruct (s_dropped s); reflexivity.
+    - destruct (s_dropped s); reflexivity.
+    - destruct (s_dropped s); reflexivity.
+    - destruct (s_dropped s); reflexivity.
+    - destruct (s_dropped s) eqn:ED; sproj; rewrite ?ED; reflexivity.
+    - destruct (s_dropped s); reflexivity.
+    - destruct (s_dropped s); reflexivity.
+  Qed.
+
+  (* ---- the no-throttle-body invariant of handler states, and whole runs -------------------------- *)
+  Definition st_safe (x : hstate) : Prop :=
+    forall b, (x = HWait b \/ x = HPermit b) -> b <> BThrottle.
+
+  Lemma hb_ok_handlers : forall (s s' : st), hb_ok s ->
+    (forall hr', In hr' (s_handlers s') -> In hr' (s_handlers s) \/ st_safe (h_st hr')) -> hb_ok s'.
+  Proof.
+    intros s s' Hb H hr' b Hin Hst. destruct (H hr' Hin) as [Hin0|Hs]; [exact (Hb hr' b Hin0 Hst)|exact (Hs b Hst)].
+  Qed.
+
+  Lemma in_set_hst : forall k x l hr', In hr' (set_hst k x l) -> In hr' l \/ h_st hr' = x.
+  Proof.
+    intros k x l; revert k; induction l as [|y l IH]; destruct k; cbn; intros hr' H; try tauto.
+    - destruct H as [<-|H]; [right; reflexivity|left; right; exact H].
+    - destruct H as [<-|H]; [left; left; reflexivity|]. destruct (IH _ _ H); [left; right; assumption|right; assumption].
+  Qed.
+
+  Lemma hb_ok_add_permit : forall (s : st), hb_ok s -> hb_ok (add_permit s).
+  Proof.
+    intros s Hb. apply (hb_ok_hrel s); [exact Hb|].
+    destruct (add_permit_shape s) as (_ & A2 & _). cbv zeta in A2.
+    intros j hr' Hj. destruct (A2 j hr' Hj) as (hr & Hhr & _ & _ & E). eauto.
+  Qed.
+
+  Lemma hb_ok_set : forall (sx s1 : st) k x, hb_ok sx -> st_safe x ->
+    s_handlers s1 = set_hst k x (s_handlers sx) -> hb_ok s1.
+  Proof.
+    intros sx s1 k x Hb Hs Hh. apply (hb_ok_handlers sx s1 Hb). intros hr' Hin. rewrite Hh in Hin.
+    destruct (in_set_hst _ _ _ _ Hin) as [H|H]; [left; exact H|right; rewrite H; exact Hs].
+  Qed.
+
+  Lemma hb_ok_step : forall (s : st) p, hb_ok s -> hb_ok (fst (step tp ctl tfuel c s p)).
+  Proof.
+    intros s p Hb. unfold step.
+    assert (S1 : st_safe HDone) by (intros b [H|H]; discriminate).
+    assert (S2 : st_safe HGone) by (intros b [H|H]; discriminate).
+    assert (S3 : st_safe HRunning) by (intros b [H|H]; discriminate).
+    assert (S4 : forall v, st_safe (HWait (BOk v))) by (intros v b [H|H]; inversion H; discriminate).
+    assert (S5 : st_safe (HWait BErr)) by (intros b [H|H]; inversion H; discriminate).
+    assert (S6 : st_safe HYielded) by (intros b [H|H]; discriminate).
+    destruct p as [|x|k hs|k|k| |dt].
+    - unfold poll_requests. destruct (s_dropped s); [exact Hb|].
+      destruct (requests_poll_next tp c (poll_fuel tfuel s) (set_log s [])) as [r s2] eqn:ER.
+      pose proof (hrel_requests tp _ _ _ _ _ ER) as HR.
+      assert (Hb2 : hb_ok s2) by (eapply hb_ok_hrel; [exact Hb|exact HR]).
+      destruct r; cbn [fst]; try exact Hb2.
+      apply (hb_ok_handlers s2); [exact Hb2|]. sproj. intros hr' Hin. apply in_app_or in Hin.
+      destruct Hin as [Hin|[<-|[]]]; [left; exact Hin|right; exact S6].
+    - exact Hb.
+    - unfold execute_poll. destruct (nth_error (s_handlers s) k) as [hr|]; [|exact Hb].
+      pose proof (hb_ok_add_permit s Hb) as Hbp.
+      destruct (h_st hr); try exact Hb;
+        destruct (existsb (Nat.eqb (h_h hr)) (s_aborted s)); try destruct hs; try destruct (s_dropped s);
+        try destruct (s_permits s); cbn [fst]; try exact Hb;
+        try (eapply (hb_ok_set s); [exact Hb| |sproj; reflexivity]; auto; fail);
+        try (eapply (hb_ok_set (add_permit s)); [exact Hbp| |sproj; reflexivity]; auto; fail).
+    - unfold drop_handler, guard_cancel. destruct (nth_error (s_handlers s) k) as [hr|]; [|exact Hb].
+      pose proof (hb_ok_add_permit s Hb) as Hbp.
+      destruct (h_st hr); cbn [fst]; try exact Hb; sproj.
+      + destruct (s_dropped s); eapply (hb_ok_set s); try exact Hb; try exact S2; sproj; reflexivity.
+      + destruct (s_dropped s); eapply (hb_ok_set s); try exact Hb; try exact S2; sproj; reflexivity.
+      + destruct (s_dropped (add_permit s)); eapply (hb_ok_set (add_permit s)); try exact Hbp; try exact S2; sproj; reflexivity.
+    - unfold drop_yielded, guard_cancel. destruct (nth_error (s_handlers s) k) as [[h i stt]|]; [|exact Hb].
+      destruct stt; cbn [fst]; try exact Hb; sproj.
+      destruct (s_dropped s); eapply (hb_ok_set s); try exact Hb; try exact S2; sproj; reflexivity.
+    - cbn [fst]. unfold drop_channel. destruct (s_dropped s); exact Hb.
+    - exact Hb.
+  Qed.
+
+  Lemma top_step : forall o (s : st) p s' l,
+    Top o s -> hb_ok s -> step tp ctl tfuel c s p = (s', l) -> Top (ostep lim o p l) s'.
+  Proof.
+    intros o s p s' l HT Hb H. destruct p as [|x|k hs|k|k| |dt].
+    - eapply top_poll; eauto.
+    - eapply top_ctl; eauto.
+    - eapply top_handler_poll; eauto.
+    - eapply top_drop_handler; eauto.
+    - eapply top_drop_yielded; eauto.
+    - eapply top_drop_channel; eauto.
+    - eapply top_advance; eauto.
+  Qed.
+
+  (* the invariant holds along every run *)
+  Theorem run_top : forall ops o (s : st),
+    Top o s -> hb_ok s ->
+    let r := run_from tp ctl tfuel c s ops in
+    Top (orun lim o ops (fst r)) (snd r) /\ hb_ok (snd r).
+  Proof.
+    induction ops as [|p ops IH]; intros o s HT Hb; cbn [run_from]; [cbn; auto|].
+    destruct (step tp ctl tfuel c s p) as [s1 l] eqn:ES.
+    pose proof (top_step o s p s1 l HT Hb ES) as HT1.
+    pose proof (hb_ok_step s p Hb) as Hb1. rewrite ES in Hb1. cbn [fst] in Hb1.
+    specialize (IH (ostep lim o p l) s1 HT1 Hb1). cbv zeta in IH.
+    destruct (run_from tp ctl tfuel c s1 ops) as [ls s2]. cbn [fst snd orun] in *. exact IH.
+  Qed.
+
+  Lemma top_init : forall t0, Top o_init (init c t0) /\ hb_ok (init c t0).
+  Proof.
+    intros t0. split.
+    - intros _. split; [|split].
+      + unfold init. constructor; sproj; cbn [o_incs o_now o_dropped o_eof o_init o_v v0 c_err pend_id o_pend];
+          try reflexivity; try (constructor); try discriminate;
+          try (intros; contradiction).
+        all: try (intros k hr oi H; destruct k; discriminate).
+        all: try (intros k1 k2 x1 x2 H; destruct k1; discriminate).
+        all: try (intros k e oi H; contradiction).
+        all: try (intros _ e H; contradiction).
+        all: try (match goal with H : nth_error [] ?k = Some _ |- _ => destruct k; discriminate end).
+      + intros m H. contradiction.
+      + intros _. split; [intros e H; contradiction|reflexivity].
+    - intros hr b H. contradiction.
   Qed.
 End Top.
